@@ -12,6 +12,7 @@
 -/
 import OrxPar.Lemmas.Settings
 import OrxPar.Lemmas.Spawn
+import OrxPar.Lemmas.Wrap
 namespace OrxPar
 
 /-- **C15 (chunk size positive).** `calc_chunk_size` returns a positive chunk for all inputs -/
@@ -68,6 +69,21 @@ theorem C15_in_range (task : Task) (chunk nt : Nat) (hc : chunk ≤ 2 ^ 20) (ht 
   have h1 : chunk * nt ≤ 2 ^ 20 * 2 ^ 16 := Nat.mul_le_mul hc ht
   unfold minRequiredLen usizeMax Consts.pinned
   cases task <;> simp only <;> omega
+
+/-- **C15 (position counter).** the dependency advances a wrapping `usize` counter by `c` per pull.
+    As long as `counter + k·c < 2^64` for the pulls made (any source shorter than 2^63 with
+    `c < 2^63/(k+1)`), the chunks handed out start at `counter, counter + c, …`, lie inside the
+    source and are pairwise disjoint — the contract `Tiles` of the result theorems -/
+theorem C15_counter_no_wrap (c len : Nat) (hc : 0 < c) (k counter : Nat)
+    (h : counter + k * c < Wrap.W64) :
+    ∀ ch ∈ Wrap.pulls c len k counter, counter ≤ ch.1 ∧ ch.1 < len ∧ ch.1 + ch.2 ≤ len ∧
+      (ch.1 - counter) % c = 0 :=
+  Wrap.pulls_increasing c len hc k counter h
+
+/-- the known finding `C15 chunk-wrap:known-len-source:c>=2^63`, as a theorem about the model of
+    the counter: 10 elements, `Exact(2^63)`: the third pull hands out `[0, 10)` a second time -/
+theorem C15_known_finding_chunk_wrap : Wrap.pulls (2 ^ 63) 10 3 0 = [(0, 10), (0, 10)] :=
+  Wrap.chunk_wrap_witness
 
 /-- the pinned constants are admissible -/
 example : Consts.pinned.Admissible := by decide
